@@ -581,6 +581,9 @@ class InstanceWriteProvider(BaseProvider):
         target_namespace = target_namespace.strip('/')
         for inst_prop in cim_object.properties.values():
             if inst_prop.type == 'reference':
+                # A reference property may be NULL (no end point)
+                if inst_prop.value is None:
+                    continue
                 refprop_namespace = inst_prop.value.namespace
                 assert refprop_namespace is not None, \
                     _format("Invalid namespace value None found in reference "
